@@ -65,3 +65,14 @@ Definition at_row (acqs : list acq) (t : lthread) : Prop :=
   | Some (m, md) => exists a, In a acqs /\ q_mutex a = m /\ q_mode a = md /\
                               forall h, In h (map fst (l_held t)) -> In h (q_may a)
   end.
+
+(* ---- returning to the caller with a lock held ----
+   An entry point of the library (exported function / method) returns to code OUTSIDE the library, which has no way to
+   release the library's private mutexes.  One row per entry point: what it may still hold when it returns. *)
+Record exit_row := { x_held : list mutex }.
+Definition no_lock_leak (rows : list exit_row) : bool :=
+  forallb (fun r => match x_held r with [] => true | _ => false end) rows.
+
+(* a goroutine that has returned from the entry point of row r holds at most what the row says *)
+Definition returned_from (rows : list exit_row) (t : lthread) : Prop :=
+  l_wait t = None /\ exists r, In r rows /\ forall h, In h (map fst (l_held t)) -> In h (x_held r).
